@@ -132,6 +132,18 @@ class SimSpec(vlib.Spec):
     def shrink(self, case):
         return sim.shrink_case(case)
 
+    def finding_key(self, case, res):
+        """known class: run_hooks panics (no decision to release / usize underflow) on a runnable
+        tick that contains a passthrough singleton hook whose queue is empty at that round"""
+        if case.get("k") != "tick":
+            return None
+        for r in res.get("rounds", []):
+            if r.get("panic") in (1, 5) and r.get("can_run"):
+                for h, b in zip(case["hooks"], r.get("before", [])):
+                    if h["kind"] == "pass" and all(not q for _, q in b):
+                        return "run_hooks/passthrough-empty-with-releasable-sibling"
+        return None
+
     def nontrivial(self, case, res):
         """some round actually released something"""
         for r in res.get("rounds", []):
@@ -166,7 +178,7 @@ class C36(SimSpec):
     theorems = ["C36_total_prefix", "C36_noorder_subsequence", "C36_keyed_total_per_key",
                 "C36_keyed_noorder_per_key", "C36_single_monotone", "C36_single_versions",
                 "C36_pass_latest", "C36_ksingle_per_key", "C36_run_hooks_releases_new",
-                "C36_can_run_iff"]
+                "C36_can_run_iff", "C36_run_hooks_no_panic_refuted"]
     trusted_base = ["coqc 8.16.1 kernel (vm_compute used for case evaluation only)",
                     "hand-written Gallina model coq/theories/Sim/Model.v of sim/runtime.rs hooks and compiled.rs run_hooks",
                     "correspondence harness harness/h_sim (scripted bolero DynDriver) + tools/sim.py",
@@ -176,7 +188,7 @@ class C36(SimSpec):
         "FxHashMap iteration order is an oracle: read from the implementation per round and fed to the model",
         "usize underflow modelled as panic (debug-profile overflow checks)",
         "verif_can_run re-states SimTick::can_run on a bare hook list (SimTick needs a DFIR); a change to can_run itself is not seen",
-        "tick-level property assumes idle hooks, can_run, and no PassthroughSingletonHook with an empty queue (run_hooks panics there: modelled and compared, reachability in a real simulation not established)",
+        "tick-level property assumes idle hooks and can_run; the PassthroughSingletonHook-with-empty-queue panic is a recorded finding (re-derived on every run)",
         "TopLevel*Hook / inline (ObserveNonDet) hooks are not modelled",
     ]
     rule = ("hook or tick (list of hooks under run_hooks) + rounds of (push, force, decision script); exhaustive: every "
